@@ -1,5 +1,6 @@
 import Driver.Util
 import RaftWal.Model.Segment
+import RaftWal.Model.SegmentRun
 namespace Driver
 open RaftWal
 
@@ -59,14 +60,7 @@ def segLine0 (st : SegSt) (line : String) : SegSt × String :=
         let wrOff := st.w.writeOffset
         let wrLen := w.writeOffset - wrOff
         let m := mask.toList
-        let before := st.file ++ zeros (after.length - st.file.length)
-        let nChunks := (wrLen + 7) / 8
-        let img := (List.range nChunks).foldl (fun img j =>
-          if m.getD (j % m.length) '0' == '1' then
-            let lo := wrOff + j * 8
-            let hi := min (lo + 8) (wrOff + wrLen)
-            writeAt img lo ((after.drop lo).take (hi - lo))
-          else img) before
+        let img := tearImage st.file after wrOff wrLen (fun j => m.getD (j % m.length) '0' == '1')
         ({ st with file := img, w := default, hasW := false }, "ok")
   | ["seal", fault] =>
     let (r, w, file) := st.w.forceSeal st.file (parseFault fault)
